@@ -82,12 +82,14 @@ func (s *socket) RecvMsg() (*protocol.Message, error) {
 	// socket.  Later we can look at moving this to priority queues
 	// based on socket pipes.
 
+	timeQ := nilQ
+	s.Lock()
+	if s.recvExpire > 0 {
+		timeQ = time.After(s.recvExpire)
+	}
+	s.Unlock()
 	for {
 		s.Lock()
-		timeQ := nilQ
-		if s.recvExpire > 0 {
-			timeQ = time.After(s.recvExpire)
-		}
 		recvQ := s.recvQ
 		sizeQ := s.sizeQ
 		closeQ := s.closeQ
